@@ -95,6 +95,16 @@ def work (S : Sys σ ρ κ) (limit : Nat) : Nat → Nat → List σ → List κ 
 def worklistBfs (S : Sys σ ρ κ) (limit : Nat) (init : List σ) : List ρ :=
   bfs S limit (max limit 1) 0 init []
 
+/-- the one-shot branch of `Reactor.__call__`: every initial choice of reactants once, no re-queueing, `seen` strings only
+```python
+for chosen in permutations(s_nums, len_patterns):
+    for new in self._single_stage(chosen, ignored_atoms):
+        r = ReactionContainer(...)            # + contract_ions() when len(new) > 1
+        if str(r) in seen: continue
+        seen.add(str(r)); yield r
+``` -/
+def oneShot (S : Sys σ ρ κ) (init : List σ) : List ρ := (scan S false (pairs S init) [] []).out
+
 /-! ## a finite system given by tables (what the driver runs): items, reactions and keys are numbers
 
 `rows[i]` = the reactions of item `i`: `(reaction id, key, stop, successor items)`. -/
